@@ -72,6 +72,10 @@ def run_cases(check: str, tier: str, seed: int, cases: list[dict], out) -> None:
         ctx.steps = monitors.StepMonitor(prefixes, coverage=True)
         ctx.steps.start()
     use_mem = getattr(mod, "MEMORY", False)
+    if getattr(mod, "CONTRACTS", False):
+        from vf import contracts
+
+        ctx.contracts = contracts.install()
     if hasattr(mod, "worker_init"):
         mod.worker_init(ctx)
     default_budget = getattr(mod, "STEP_BUDGET", 50_000_000)
@@ -139,6 +143,10 @@ def run_cases(check: str, tier: str, seed: int, cases: list[dict], out) -> None:
         tail["ncodes"] = ctx.steps.ncodes
     if hasattr(mod, "worker_fini"):
         tail["fini"] = mod.worker_fini(ctx)
+    elif getattr(mod, "CONTRACTS", False):
+        from vf import contracts
+
+        tail["fini"] = {"contracts_available": contracts.STATE["available"], "contract_evals": contracts.STATE["evals"], "by_class": contracts.STATE["by_class"]}
     out.write(json.dumps(tail) + "\n")
     out.flush()
 
